@@ -546,6 +546,27 @@ def climate(chk: Check, repo: Repo) -> None:
     comp_a, comp_b = a_n * a_d, a_n * b_d + b_n
     ok2 = comp_a == LP.const(1) and comp_b == LP()
     chk.ob("requested-target-is-what-the-shift-produces", tt.site(), ok2, f"offset = ({a_d})*T + ({b_d}); new target = ({a_n})*sent + ({b_n}) with sent = {ast.unparse(sent)}; composition ({comp_a})*T + ({comp_b}) (unclamped)", key="climate|algebra")
+    # with a target address that is only read (state address - the usual configuration) nothing else moves the target:
+    # when the own shift telegram is processed as outgoing, the target follows by the same amount - computed from the
+    # base temperature as it was *before* the shift value changed.  Else the device keeps reporting the old target and
+    # base = target - shift drops by the shift: the same request again sends twice the shift
+    pg = repo.func(cm, "Climate.process_group_write")
+    chk.unit(pg)
+    pcfg = CFG(pg.node)
+    pmf = pcfg.must_facts()
+    base_reads = [n for n in pcfg.nodes if n.kind == "stmt" and isinstance(n.ast, ast.Assign) and isinstance(n.ast.targets[0], ast.Name) and ast.unparse(n.ast.value) == "self.base_temperature"]
+    procs = [n for n in pcfg.nodes if n.ast is not None and n.kind in ("stmt", "for") and any(call_name(c).endswith(".process") for c in calls(n.ast.iter if n.kind == "for" else n.ast))] + [n for n in pcfg.nodes if n.kind == "for"]
+    upd = [n for n in pcfg.nodes if n.kind == "stmt" and n.ast is not None and any(call_name(c) == "self.target_temperature.update_value" for c in calls(n.ast))]
+    ok_own = False
+    if len(base_reads) == 1 and len(upd) == 1 and procs:
+        bl = base_reads[0].ast.targets[0].id
+        c_ = [c for c in calls(upd[0].ast) if call_name(c) == "self.target_temperature.update_value"][0]
+        arg = ast.unparse(c_.args[0]) if c_.args else ""
+        facts = pmf[upd[0].id]
+        outgoing = any(v and "TelegramDirection.OUTGOING" in a for a, v in facts)
+        to_shift = any(v and "self._setpoint_shift.group_address" in a and "destination_address" in a for a, v in facts)
+        ok_own = all(pcfg.dominates(base_reads[0].id, p_.id) for p_ in procs) and arg in (f"{bl} + self._setpoint_shift.value", f"self._setpoint_shift.value + {bl}") and outgoing and to_shift
+    chk.ob("own-shift-moves-the-target", pg.site(), ok_own, "Climate.process_group_write: an own (outgoing) telegram to the shift address sets target := base-before + shift" if ok_own else "Climate.process_group_write does not move the target when its own shift telegram is processed: with a read-only target address the device keeps reporting the old target, base = target - shift is off by the shift and repeating the request sends the shift twice", key="climate|own-shift")
     br = base_ret[0].value
     chk.ob("base-is-target-minus-shift", bt.site(), ast.unparse(br) == "self.target_temperature.value - self._setpoint_shift.value", f"base_temperature = {ast.unparse(br)}", key="climate|base")
 
